@@ -411,7 +411,37 @@ func findItems(ds string, ps []*proc, tag string) {
 			time.Sleep(500 * time.Millisecond)
 		}
 		sort.Ints(ids)
-		emit(event{"ev": "found", "via": p.id, "after": tag, "ids": ids, "err": es})
+		// the five nearest items (distance grows with the id): top-k of the union of the partitions
+		top, toperr := []int{}, ""
+		if es == "" {
+			ctx, cancel := context.WithTimeout(context.Background(), 3*time.Second)
+			st, err := pb.NewSearchClient(p.conn).Search(ctx, &pb.SearchRequest{DatasetId: u.Bytes(), Query: []float32{0, 0, 0}, K: 5})
+			for err == nil {
+				var it *pb.SearchResultItem
+				it, err = st.Recv()
+				if err == nil {
+					top = append(top, int(it.GetId()[14])<<8|int(it.GetId()[15]))
+				}
+			}
+			cancel()
+			if err != io.EOF {
+				// a loud failure (e.g. the replica that was picked is down) is an allowed outcome
+				top, toperr = []int{}, err.Error()
+			}
+		}
+		// the dataset's size as this node reports it (sum over the partitions, wherever they live)
+		size, serr := -1, ""
+		{
+			ctx, cancel := context.WithTimeout(context.Background(), 3*time.Second)
+			sz, err := pb.NewDatasetManagerClient(p.conn).GetDatasetSize(ctx, &pb.GetDatasetRequest{DatasetId: u.Bytes()})
+			cancel()
+			if err != nil {
+				serr = err.Error()
+			} else {
+				size = int(sz.GetLen())
+			}
+		}
+		emit(event{"ev": "found", "via": p.id, "after": tag, "ids": ids, "err": es, "size": size, "sizeerr": serr, "top": top, "toperr": toperr})
 	}
 }
 
